@@ -309,7 +309,7 @@ pub fn run(a: &Args) {
     std::fs::create_dir_all(&out).unwrap();
     let seed = a.num("seed", 1);
     let chunks = a.num("chunks", 4) as usize;
-    let nrec = a.num("nrec", 3) as usize;
+    let nrecs: Vec<usize> = a.get("nrecs", &a.get("nrec", "3")).split(',').map(|x| x.parse().unwrap()).collect();
     let maxlen = a.num("maxlen", 2) as usize;
     let nrandom = a.num("random", 50) as usize;
     let ntypes = a.num("types", 3) as usize;
@@ -338,13 +338,19 @@ pub fn run(a: &Args) {
     // types rotate with the seed
     let types: Vec<i32> = (0..ntypes).map(|i| ALL_TYPES[(i * 5 + seed as usize) % 13]).collect();
     for &t in &types {
+      for &nrec in &nrecs {
         for &equal in &[false, true] {
+            if equal && nrec < 2 {
+                continue;
+            }
             // one file per chunk (each chunk has its own concretisation)
             let files: Vec<TestFile> = (0..chunks).map(|i| make_file(&concs[i], &mut r, t, nrec, equal)).collect();
             let mut hists: Vec<(Option<bool>, String)> = vec![];
             // 1. the histories TLC explored
-            for (w, h) in &model_hists {
-                hists.push((Some(*w), h.clone()));
+            if nrec == 3 {
+                for (w, h) in &model_hists {
+                    hists.push((Some(*w), h.clone()));
+                }
             }
             // 2. all histories up to maxlen enumerated here
             let calls = all_calls(nrec);
@@ -380,12 +386,13 @@ pub fn run(a: &Args) {
                     for &complete in &[false, true] {
                         let i = k % chunks;
                         k += 1;
-                        distinct.insert((t, equal, with_idx, complete, h.clone()));
+                        distinct.insert((t, nrec, equal, with_idx, complete, h.clone()));
                         run_history(&mut traces[i], &concs[i], &files[i], with_idx, complete, equal, &calls, h, &prop);
                     }
                 }
             }
         }
+      }
     }
     let mut files = vec![];
     let mut lines = 0;
